@@ -17,7 +17,12 @@ from .core import viol, h64, canon
 NAME = "W-FSA"
 
 MUTATE = ("add_vertices", "add_edge", "add_edges_list", "delete_vertex", "delete_vertices",
-          "recurrent_in", "rename_in", "set_starts")
+          "recurrent_in", "rename_in", "set_starts", "starts_inplace")
+# handles whose start_vertices list is their own object on the current tree (constructed with a list the
+# simulator made for them, parsed from a file, or deep-copied); rename/multiple share the parent's list and
+# remove_long_paths returns the constructor's shared default list, so those are never edited in place
+OWN_START_LIST = ("ctor_label", "ctor_out", "ctor_free", "load_kbmag", "load_builtin", "d_copy", "d_recurrent")
+SHARES_START_LIST = ("d_rename", "d_multiple", "d_shortest")
 DERIVE = ("d_rename", "d_recurrent", "d_copy", "d_shortest", "d_multiple")
 CONSTRUCT = ("ctor_label", "ctor_out", "ctor_free", "load_kbmag", "load_builtin", "write_file")
 QUERY = ("q_has_edge", "q_edge_label", "q_edge_labels", "q_neighbors", "q_edges_at",
@@ -45,7 +50,8 @@ def tup(e):
 
 
 class Handle:
-    __slots__ = ("id", "real", "V", "E", "S", "origin", "parent", "group", "big", "exact_model")
+    __slots__ = ("id", "real", "V", "E", "S", "origin", "parent", "group", "big", "exact_model",
+                 "rebound_starts", "slist")
 
     def __init__(self, hid, real, V, E, S, origin, parent=None, group=None):
         self.id = hid
@@ -56,6 +62,8 @@ class Handle:
         self.origin = origin
         self.parent = parent
         self.group = group        # same-source / same-file group tag
+        self.rebound_starts = False
+        self.slist = hid          # identity token of its start_vertices list object
         self.big = len(self.V) > 12 or len(self.E) > 40
 
     def adj(self):
@@ -90,6 +98,7 @@ class World:
         self.prev_touched = None
         self.next_id = 0
         self.steps_done = 0
+        self.sweep = None
 
     def live(self):
         return list(self.handles.values())
@@ -109,6 +118,8 @@ class Engine:
         self.builtin_names = sorted(n for n, (t, _) in self.tables.items() if t is not None)
         self._defaults = (dict(fsa.FSA.__init__.__defaults__[0]),
                           list(fsa.FSA.__init__.__defaults__[1]))
+        from .core import library_guard
+        self.guard = library_guard()
 
     # ------------------------------------------------------------------ config
     def gen_config(self, rng, prop, tier):
@@ -140,7 +151,11 @@ class Engine:
         else:
             base = {"construct": 14, "mutate": 42, "derive": 10, "query": 18, "reject": 2, "io": 14}
         style = rng.choice(["flat", "mutate", "query", "derive", "io"])
-        if style != "flat":
+        if not c10 and rng.random() < 0.08:
+            style = "iosweep"       # one file, one fault kind, fault position swept over consecutive indices
+            cfg["faulty"] = True
+            cfg["fault_kinds"] = ["bitflip", "open_error", "read_error", "truncated"]
+        elif style != "flat":
             base[style] = base[style] * 3
         cfg["weights"] = base
         cfg["style"] = style
@@ -162,6 +177,7 @@ class Engine:
             fsa.FSA.__init__.__defaults__ = ({}, [], True)
             self.dirty_defaults = True
         simfs.DISK.reset()
+        self.guard.restore()
         # memoised functions in the automata modules would make a run depend on its predecessors
         from geometry_tools.automata import gap_parse, kbmag_utils
         for mod in (fsa, gap_parse, kbmag_utils):
@@ -195,8 +211,47 @@ class Engine:
         return "C09"
 
     # ------------------------------------------------------------------ generation
+    def _gen_sweep(self, rng, world):
+        cfg = world.cfg
+        st = world.sweep
+        if st is None:
+            chunks = [rng.choice([1, 3, 16, 64, 500, 4096])]
+            bufsize = rng.choice([1, 16, 128, 8192])
+            if rng.random() < 0.6:
+                name = rng.choice(self.builtin_names)
+                size = self.tables[name][1]
+                if size > 3000 and chunks[0] < 16:
+                    chunks = [64]
+                world.sweep = st = {"target": ["builtin", name], "size": size}
+            else:
+                if not world.files:
+                    return {"op": "write_file", "file": "sweep.wa", "table": self._gen_table(rng, cfg),
+                            "layout": self._gen_layout(rng), "caller": 0}
+                fn = sorted(world.files)[0]
+                world.sweep = st = {"target": ["file", fn], "size": world.files[fn][1]}
+            st["kind"] = rng.choice(["read_error", "read_error", "truncated", "bitflip"])
+            st["chunks"], st["bufsize"] = chunks, bufsize
+            n = self._count_reads(st["size"], chunks, bufsize) if st["kind"] == "read_error" else st["size"]
+            st["n"] = max(1, n)
+            st["pos"] = rng.randrange(st["n"])
+            st["bit"] = rng.randrange(7)
+        plan = {"kind": st["kind"], "chunks": st["chunks"], "bufsize": st["bufsize"],
+                "at": st["pos"] % st["n"], "bit": st["bit"]}
+        st["pos"] += 1
+        world.stats["probe.sweep_step"] += 1
+        if st["target"][0] == "builtin":
+            op = {"op": "load_builtin", "new": self._new_id(world), "name": st["target"][1], "plan": plan}
+        else:
+            op = {"op": "load_kbmag", "new": self._new_id(world), "file": st["target"][1], "plan": plan}
+        op["caller"] = 0
+        # keep the world small: the previous sweep handle is dropped by the interpreter
+        op["drop_previous"] = True
+        return op
+
     def gen_op(self, rng, world):
         cfg = world.cfg
+        if cfg.get("style") == "iosweep":
+            return self._gen_sweep(rng, world)
         live = world.live()
         w = dict(cfg["weights"])
         if not live:
@@ -302,6 +357,10 @@ class Engine:
         dens = rng.choice([0.2, 0.5, 0.8, 1.0])
         trans = [[(rng.randint(1, n) if rng.random() < dens else 0) for _ in names]
                  for _ in range(n)]
+        for i in range(n):          # some rows of consecutive targets (printed as intervals by GAP)
+            if len(names) >= 2 and len(names) <= n and rng.random() < 0.12:
+                a = rng.randint(1, n - len(names) + 1)
+                trans[i] = list(range(a, a + len(names)))
         k = 1 if rng.random() < 0.8 else rng.randint(1, min(3, n))
         if rng.random() < 0.5:
             s0 = rng.randint(1, n - k + 1)
@@ -325,6 +384,7 @@ class Engine:
             "initial_interval": rng.random() < 0.3,
             "row_break": rng.random() < 0.7,
             "row_pad": rng.random() < 0.3,
+            "row_interval": rng.random() < 0.6,
             "field_order": order,
         }
 
@@ -427,9 +487,21 @@ class Engine:
                 return None
             return {"op": "rename_in", "h": h.id, "map": m}
         if Vl:
+            if rng.random() < 0.4 and self._owns_starts(world, h):
+                if h.S and rng.random() < 0.5:
+                    return {"op": "starts_inplace", "h": h.id, "how": "remove", "v": rng.choice(h.S)}
+                return {"op": "starts_inplace", "h": h.id, "how": "append", "v": rng.choice(Vl)}
             k = rng.randint(1, min(2, len(Vl)))
             return {"op": "set_starts", "h": h.id, "starts": rng.sample(Vl, k)}
         return None
+
+    @staticmethod
+    def _owns_starts(world, h):
+        """the handle's start_vertices list object is shared with no other live handle (and is not
+        the constructor's shared default list)"""
+        if h.slist == "default":
+            return False
+        return not any(o.id != h.id and o.slist == h.slist for o in world.handles.values())
 
     def _gen_rename(self, rng, h, A):
         labs = h.labels()
@@ -557,6 +629,9 @@ class Engine:
             world.last_relation = "skip"
             return "skipped:no-handle", []
         self._relation(world, op)
+        if op.get("drop_previous"):
+            for hid_ in [x for x, hh in world.handles.items() if hh.origin in ("load_builtin", "load_kbmag")]:
+                world.handles.pop(hid_, None)
         outcome = fn(world, op, vs)
         if outcome.startswith("skipped"):
             return outcome, []
@@ -935,6 +1010,30 @@ class Engine:
         h.E = {(t, hd, md[l]) for (t, hd, l) in h.E}
         return out
 
+    def _do_starts_inplace(self, world, op, vs):
+        """the caller edits the public start_vertices *list object* in place"""
+        h = world.handles[op["h"]]
+        if not self._owns_starts(world, h):
+            return "skipped:shared-list"
+        v = op["v"]
+        try:
+            if not isinstance(h.real.start_vertices, list):
+                return "skipped:not-a-list"
+        except Exception:
+            return "skipped:not-a-list"
+        if op["how"] == "remove":
+            if v not in h.S:
+                return "skipped:absent"
+            out = self._mut(world, op, vs, lambda a: a.start_vertices.remove(v))
+            h.S.remove(v)
+        else:
+            if v in h.S:
+                return "skipped:present"
+            out = self._mut(world, op, vs, lambda a: a.start_vertices.append(v))
+            h.S.append(v)
+        world.stats["probe.start_list_edited_in_place"] += 1
+        return out
+
     def _do_set_starts(self, world, op, vs):
         h = world.handles[op["h"]]
         starts = list(op["starts"])
@@ -943,6 +1042,8 @@ class Engine:
             a.start_vertices = starts
         out = self._mut(world, op, vs, call)
         h.S = list(starts)
+        h.rebound_starts = True
+        h.slist = "set:%s:%d" % (h.id, world.steps_done)
         return out
 
     # ---- derivation
@@ -958,6 +1059,10 @@ class Engine:
             return "wrong"
         V2, E2, S2 = predict(h, new)
         nh = self._register(world, op["new"], new, V2, E2, S2, op["op"], parent=h.id)
+        if op["op"] in ("d_rename", "d_multiple"):
+            nh.slist = h.slist          # these share the original's list object on the current tree
+        elif op["op"] == "d_shortest":
+            nh.slist = "default"        # FSA({}) -> the constructor's shared default list
         if check is not None:
             bad = check(h, nh)
             if bad:
